@@ -197,9 +197,9 @@ func freeOperand(rt *rapid.T, allowQual bool) model.Operand {
 		v := model.Bool(rapid.Bool().Draw(rt, "bool"))
 		return model.Operand{Lit: &v}
 	}
-	o := model.Operand{Col: Ident(rt, "col", colPool)}
+	o := model.Operand{Col: IdentX(rt, "col", colPool)}
 	if allowQual && rapid.IntRange(0, 2).Draw(rt, "qual") == 0 {
-		o.Qual = Ident(rt, "qualname", tablePool)
+		o.Qual = IdentX(rt, "qualname", tablePool)
 	}
 	return o
 }
@@ -224,17 +224,17 @@ func FreeCond(rt *rapid.T, maxOr, maxAnd int) *model.Cond {
 }
 
 func freeColRef(rt *rapid.T) ColRef {
-	c := ColRef{Name: Ident(rt, "col", colPool)}
+	c := ColRef{Name: IdentX(rt, "col", colPool)}
 	if rapid.IntRange(0, 2).Draw(rt, "qual") == 0 {
-		c.Qual = Ident(rt, "qualname", tablePool)
+		c.Qual = IdentX(rt, "qualname", tablePool)
 	}
 	return c
 }
 
 func freeTableRef(rt *rapid.T) TableRef {
-	t := TableRef{Name: Ident(rt, "table", tablePool)}
+	t := TableRef{Name: IdentX(rt, "table", tablePool)}
 	if rapid.IntRange(0, 2).Draw(rt, "alias") == 0 {
-		t.Alias = Ident(rt, "aliasname", []string{"x", "y", "z", "t", "u"})
+		t.Alias = IdentX(rt, "aliasname", []string{"x", "y", "z", "t", "u"})
 	}
 	return t
 }
@@ -288,7 +288,7 @@ func FreeSelect(rt *rapid.T) Select {
 				it.Col = &c
 			}
 			if rapid.IntRange(0, 2).Draw(rt, "hasalias") == 0 {
-				it.Alias = Ident(rt, "alias", []string{"p", "q", "r", "total", "n1"})
+				it.Alias = IdentX(rt, "alias", []string{"p", "q", "r", "total", "n1"})
 				it.UseAS = rapid.Bool().Draw(rt, "useas")
 			}
 			q.Items = append(q.Items, it)
@@ -369,11 +369,11 @@ func FreeStmt(rt *rapid.T) AnyStmt {
 		q := FreeSelect(rt)
 		return AnyStmt{Kind: "select", Select: &q}
 	case "insert":
-		s := model.Stmt{Kind: "insert", Table: Ident(rt, "table", tablePool)}
+		s := model.Stmt{Kind: "insert", Table: IdentX(rt, "table", tablePool)}
 		ncol := rapid.IntRange(1, 6).Draw(rt, "ncol")
 		if rapid.Bool().Draw(rt, "collist") {
 			for i := 0; i < ncol; i++ {
-				s.InsCols = append(s.InsCols, Ident(rt, "col", colPool))
+				s.InsCols = append(s.InsCols, IdentX(rt, "col", colPool))
 			}
 		}
 		nrows := rapid.IntRange(1, 6).Draw(rt, "nrows")
@@ -390,20 +390,20 @@ func FreeStmt(rt *rapid.T) AnyStmt {
 		}
 		return AnyStmt{Kind: "dml", DML: &s}
 	case "update":
-		s := model.Stmt{Kind: "update", Table: Ident(rt, "table", tablePool)}
+		s := model.Stmt{Kind: "update", Table: IdentX(rt, "table", tablePool)}
 		for i := rapid.IntRange(1, 6).Draw(rt, "nset"); i > 0; i-- {
 			o := freeOperand(rt, false)
 			for o.Lit == nil {
 				o = freeOperand(rt, false)
 			}
-			s.Set = append(s.Set, model.Assign{Col: Ident(rt, "col", colPool), Val: *o.Lit})
+			s.Set = append(s.Set, model.Assign{Col: IdentX(rt, "col", colPool), Val: *o.Lit})
 		}
 		if rapid.Bool().Draw(rt, "haswhere") {
 			s.Where = FreeCond(rt, 3, 3)
 		}
 		return AnyStmt{Kind: "dml", DML: &s}
 	case "delete":
-		s := model.Stmt{Kind: "delete", Table: Ident(rt, "table", tablePool)}
+		s := model.Stmt{Kind: "delete", Table: IdentX(rt, "table", tablePool)}
 		if rapid.Bool().Draw(rt, "haswhere") {
 			s.Where = FreeCond(rt, 3, 3)
 		}
@@ -412,9 +412,9 @@ func FreeStmt(rt *rapid.T) AnyStmt {
 		s := model.Stmt{Kind: "create", Table: Ident(rt, "table", tablePool), Cols: Columns(rt, 6)}
 		return AnyStmt{Kind: "dml", DML: &s}
 	case "create_db":
-		return AnyStmt{Kind: "create_db", Name: Ident(rt, "db", []string{"d1", "d2", "shop"})}
+		return AnyStmt{Kind: "create_db", Name: IdentX(rt, "db", []string{"d1", "d2", "shop"})}
 	case "use":
-		return AnyStmt{Kind: "use", Name: Ident(rt, "db", []string{"d1", "d2", "shop"})}
+		return AnyStmt{Kind: "use", Name: IdentX(rt, "db", []string{"d1", "d2", "shop"})}
 	}
 	return AnyStmt{Kind: "show", Plural: rapid.Bool().Draw(rt, "plural")}
 }
